@@ -23,7 +23,7 @@ _ALONE = {}
 _BUDGET = {"t_end": None}
 
 
-def start_budget(tier, quick_s=35, thorough_s=240):
+def start_budget(tier, quick_s=90, thorough_s=400):
     import time
     _BUDGET["t_end"] = time.time() + (quick_s if tier == "quick" else thorough_s)
 
@@ -315,7 +315,7 @@ def shard_national(arg):
     import random
     rng = random.Random(f"{seed}:C14:nat:{cc}")
     rec = Rec()
-    start_budget(tier, quick_s=14, thorough_s=200)
+    start_budget(tier, quick_s=90, thorough_s=400)
     quick = tier == "quick"
     for _ in range(10 if quick else 100):
         if out_of_budget(rec):
@@ -326,10 +326,10 @@ def shard_national(arg):
         sch = sorted({(rng.randrange(1, total + 1), rng.randrange(k)) for _ in range(rng.randrange(1, 8))})
         info, eff = check_schedule(rec, descs, sch, "random-national")
         rec.case("random-national", (json.dumps(descs), tuple(sch)) if eff else None)
-    for p in range(3 if quick else 10):
+    for p in range(3 if quick else 4):
         calls = national_calls(rng, cc)
         descs = rng.sample(calls, 2) if p != 1 else [calls[-1], calls[-3] if len(calls) >= 8 else calls[0]]
-        n = enumerate_two_preemptions(rec, descs, 9 if quick else 1, "enum2-national")
+        n = enumerate_two_preemptions(rec, descs, 9 if quick else 4, "enum2-national")
         rec.classes[f"enum-national-{cc}"] += n
         if p == 0:
             rec.sample(f"enum-national-{cc}", {"calls": descs, "schedules": n})
@@ -507,7 +507,7 @@ def shard_aged(arg):
     from ..lib import IBAN, SchwiftyException
     rng = random.Random(f"{seed}:C14:aged:{i}")
     rec = Rec()
-    start_budget(tier, quick_s=10, thorough_s=150)
+    start_budget(tier, quick_s=60, thorough_s=300)
     g, o = gen(), oracle()
     ccs = o.countries()
     n_burst = 2600
@@ -576,7 +576,10 @@ def shard_cold(arg):
     rec = Rec()
     state()
     zyg = Zygote()
-    t_end = time.time() + (20 if tier == "quick" else 180)
+    # coverage is limited by a trial count (the same on a loaded machine); the wall-clock limit is only a safety cap for trees on
+    # which every cold trial takes seconds
+    t_end = time.time() + (75 if tier == "quick" else 600)
+    max_trials = 240 if tier == "quick" else 3600
     try:
         # one list of pairs per seed, dealt out to the 16 shards (so that every kind of pair gets its share of the budget)
         common = random.Random(f"{seed}:C14:cold:pairs")
@@ -588,10 +591,10 @@ def shard_cold(arg):
         pairs = pairs[i::16]
         pairs.sort(key=lambda pr: pr[0]["op"] != "bic")      # pairs that run through third-party frames first (costlier trials)
         for descs in pairs:
-            if time.time() > t_end:
+            if time.time() > t_end or rec.classes["loc-cold-schedules"] >= max_trials:
                 break
             for order in (descs, descs[::-1]):
-                if time.time() > t_end:
+                if time.time() > t_end or rec.classes["loc-cold-schedules"] >= max_trials:
                     break
                 want = [zyg.reference(d) for d in order]
                 tp = order[0]["op"] == "bic"       # include the third-party frames the call runs through
@@ -617,6 +620,8 @@ def shard_cold(arg):
                 # third-party frames: only arrivals inside their loops (the library's own lines come first-arrival as always)
                 points = (later + first) if tp else (first + later)
                 for L, occ in points:
+                    if rec.classes["loc-cold-schedules"] >= max_trials:
+                        break
                     if time.time() > t_end:
                         rec.notes.append("cold enumeration stopped at its time budget")
                         break
